@@ -343,6 +343,25 @@ func cmdCheck(args []string) {
 			continue
 		}
 		txt := string(data)
+		// `; same-as-spec f g`: the file must contain the definitions of these spec functions verbatim
+		// (up to white space), so that the lemma is about the functions the contracts use
+		specMismatch := ""
+		for _, line := range strings.Split(txt, "\n") {
+			if strings.HasPrefix(line, "; same-as-spec ") {
+				for _, n := range strings.Fields(line[len("; same-as-spec "):]) {
+					d := specDefs[n]
+					if d == nil || !strings.Contains(normSpace(txt), normSpace(d.Text)) {
+						specMismatch = n
+					}
+				}
+			}
+		}
+		if specMismatch != "" {
+			p := writeReplay(map[string]interface{}{"property": id, "spec_lemma": lf, "detail": "definition of " + specMismatch + " in the lemma file differs from the spec library"})
+			lines = append(lines, fmt.Sprintf("VIOLATION property=%s replay=%s spec-lemma=%s (definition of %s differs from spec library) no-failing-input-found", id, p, lf, specMismatch))
+			violations++
+			continue
+		}
 		if !strings.Contains(txt, "(check-sat)") {
 			txt += "\n(check-sat)\n"
 		}
